@@ -92,8 +92,9 @@ class Ctx:
                     self.known_hits.append((signature, k.get("what", what)))
                 return
         os.makedirs(self.replay_dir, exist_ok=True)
+        self._nviol = getattr(self, "_nviol", 0) + 1
         path = os.path.join(self.replay_dir, "%s-%s-%d.json" % (
-            re.sub(r"[^A-Za-z0-9_.-]", "_", signature)[:80], self.tier, len(self.violations)))
+            re.sub(r"[^A-Za-z0-9_.-]", "_", signature)[:80], self.tier, self._nviol - 1))
         with open(path, "w") as f:
             json.dump({"property": self.pid, "signature": signature, "what": what,
                        "replay": replay_obj}, f, indent=1, default=str)
@@ -508,6 +509,59 @@ def write_ndjson(path, events):
         for e in events:
             f.write(json.dumps(e, sort_keys=True))
             f.write("\n")
+
+
+class Background:
+    """Run an extension module's run_extra(ctx) concurrently with the main part of a check (the
+    extensions mostly wait on real-time timeouts).  The extension works on a sub-context that shares
+    the violation lists and scratch dir but has its own coverage dict, merged in join(); join()
+    re-raises what the extension raised."""
+
+    def __init__(self, ctx, fn, name):
+        import copy
+        import threading
+        self.exc = None
+        self.name = name
+        self.ctx = ctx
+        self.sub = copy.copy(ctx)
+        self.sub.cov = {"states": 0, "transitions": 0, "traces_validated_against_impl": 0, "samples": [],
+                        "evaluations": 0, "distinct_nontrivial": 0, "rule": "", "exhaustive": False,
+                        "checker_cmd": "", "model_runs": []}
+        self.sub.assumptions = []
+
+        def target():
+            try:
+                fn(self.sub)
+            except BaseException as e:  # noqa: re-raised in join()
+                self.exc = e
+        self.t = threading.Thread(target=target, name=name, daemon=True)
+        self.t.start()
+
+    def join(self):
+        self.t.join()
+        c, sc = self.ctx.cov, self.sub.cov
+        for k in ("states", "transitions", "traces_validated_against_impl", "evaluations", "distinct_nontrivial"):
+            c[k] = c.get(k, 0) + sc.get(k, 0)
+        c.setdefault("model_runs", []).extend(sc.get("model_runs", []))
+        for smp in sc.get("samples", [])[:2]:
+            c.setdefault("samples", []).append(smp)
+        for k, v in sc.items():
+            if k in ("states", "transitions", "traces_validated_against_impl", "evaluations", "distinct_nontrivial",
+                     "model_runs", "samples", "rule", "exhaustive", "checker_cmd"):
+                continue
+            if isinstance(v, dict):
+                c.setdefault(k, {}).update(v)
+            elif isinstance(v, list):
+                c.setdefault(k, []).extend(v)
+            else:
+                c.setdefault(k, v)
+        self.ctx.assumptions += self.sub.assumptions
+        if self.exc is not None:
+            raise self.exc
+
+
+def background(ctx, fn, name="extension"):
+    return Background(ctx, fn, name)
 
 
 # ---------------------------------------------------------------------------
